@@ -12,6 +12,16 @@ package pnet
 // mode); on each connection the read policies follow one another and ALTERNATE DIRECTIONS (a->b, b->a, ...),
 // so both key streams are advanced independently and across many transfers.
 // Oracle: received so far == prefix of accepted so far, after every Read (engine/memconn Transfer).
+//
+// End of the stream / errors of the connection underneath ("any underlying connection": an io.Reader may return
+// n > 0 TOGETHER WITH err != nil): the last transfer of every connection ends with the writer closing BEFORE the
+// reader has read what the last write sent, and the connection underneath hands the reader its last segment
+// either in the same Read call as io.EOF or before it (both, as a grid dimension); the bytes returned by the
+// call that reports the end are checked like all others and all bytes must have arrived by then.
+// TestVerifC02PSKReadFaults additionally breaks the connection at enumerated byte positions (inside the nonce,
+// at its end, inside / at the end of the ciphertext) with the error arriving together with the segment that
+// ends there, or after it (control): the bytes returned so far - by the failing call too - must be a prefix of
+// what was written, and nothing else may ever be delivered afterwards.
 
 import (
 	"fmt"
@@ -29,11 +39,13 @@ var c02Key = func() *[32]byte {
 	return &k
 }()
 
-func c02Setup(short []int) func() (*memconn.Link, error) {
+func c02Setup(short []int, eofWithData bool) func() (*memconn.Link, error) {
 	return func() (*memconn.Link, error) {
 		ca, cb := memconn.Pair()
 		ca.SetReadChunks(short...)
 		cb.SetReadChunks(short...)
+		ca.SetEOFWithData(eofWithData)
+		cb.SetEOFWithData(eofWithData)
 		pa, err := newPSKConn(c02Key, ca)
 		if err != nil {
 			return nil, err
@@ -59,6 +71,10 @@ type c02Case struct {
 	Short  []int  `json:"short_reads_underneath"`
 	Each   bool   `json:"read_after_each_write"`
 	Nth    int    `json:"nth_transfer_of_connection"`
+	// last transfer of a connection: the writer closes before the reader reads what the last write sent
+	CloseEarly  bool               `json:"writer_closes_before_the_last_read,omitempty"`
+	EOFWithData bool               `json:"last_segment_arrives_together_with_eof"`
+	Fault       *memconn.ReadFault `json:"read_fault,omitempty"`
 }
 
 func c02ShortWrites(w []int) []int {
@@ -90,6 +106,7 @@ func TestVerifC02PSK(t *testing.T) {
 	r.Bounds["short_read_patterns(cyclic, 0=unlimited)"] = shorts
 	r.Bounds["directions"] = "alternating a->b / b->a on every connection, both parities"
 	r.Bounds["read_after"] = "each write | last write"
+	r.Bounds["end_of_stream"] = "the last transfer of every connection: the writer closes before the reader reads what the last write sent; the connection underneath delivers its last segment together with io.EOF | before io.EOF (both)"
 	r.Bounds["read_sizes"] = fmt.Sprintf("%v, L+1, remaining-1, remaining, remaining+1", fixed)
 	// zero-length reads (len(buf) = 0) interleaved: z(i mod n) of them before the i-th non-empty Read; with
 	// pattern [1] / [2,0] the very first Read of a direction (the one that has to fetch the nonce) is empty.
@@ -118,7 +135,8 @@ func TestVerifC02PSK(t *testing.T) {
 					if each && len(sp.Sizes) == 1 {
 						continue
 					}
-					for parity := 0; parity < 2; parity++ {
+					for pj := 0; pj < 4; pj++ {
+						parity, join := pj%2, pj >= 2
 						if b.Over() {
 							return
 						}
@@ -141,16 +159,76 @@ func TestVerifC02PSK(t *testing.T) {
 							if rev {
 								dir = "b2a"
 							}
-							items[i] = memconn.Item{Payload: payloads[k], Writes: sp.Sizes, Each: each, Pol: pol, Reverse: rev}
-							cases[i] = c02Case{Layer: "psk", Dir: dir, L: L, Split: sp.Name, Writes: c02ShortWrites(sp.Sizes), Policy: pol.Name, Short: short, Each: each, Nth: i}
+							last := i == len(pols)-1
+							items[i] = memconn.Item{Payload: payloads[k], Writes: sp.Sizes, Each: each, Pol: pol, Reverse: rev, CloseEarly: last}
+							cases[i] = c02Case{Layer: "psk", Dir: dir, L: L, Split: sp.Name, Writes: c02ShortWrites(sp.Sizes), Policy: pol.Name, Short: short, Each: each, Nth: i, CloseEarly: last, EOFWithData: join}
 						}
-						res := memconn.RunFidelity(t, c02Setup(short), items, &b.Buf, nil)
+						res := memconn.RunFidelity(t, c02Setup(short, join), items, &b.Buf, nil)
 						b.Fidelity("psk", res, len(items), func(i int) any { return cases[i] })
 						for i := 0; i < res.Done; i++ {
 							r.Outcome("psk transfer delivered intact " + cases[i].Dir)
 							if L > 0 {
-								b.Distinct(cases[i], sp.Sizes, short, each, parity, i)
+								b.Distinct(cases[i], sp.Sizes, short, each, parity, join, i)
 							}
+						}
+					}
+				}
+			}
+		}
+	}
+}
+
+// TestVerifC02PSKReadFaults: a fresh connection per run; the writer writes everything (nonce + ciphertext are in
+// flight, W bytes), then the stream ends (eof, delivered with / after the last segment) or the connection breaks
+// after Pos of the W bytes (reset / expired deadline, delivered with the segment that ends at Pos, or - reset -
+// after it); the reader reads on for 6 Reads after its first error. Oracle: memconn.FaultResult.Judge.
+func TestVerifC02PSKReadFaults(t *testing.T) {
+	r := vrep.New("C02", "psk-readfaults")
+	defer r.Flush()
+	b := memconn.NewBook(r)
+	defer b.Finish()
+	thorough := vrep.Thorough()
+	lengths := []int{1, 25, 64, 4097}
+	shorts := [][]int{{0}, {1}, {7}, {63, 65}}
+	pols := []memconn.Policy{memconn.Fixed(1), memconn.Fixed(25), memconn.Rel(0), memconn.Fixed(65536), memconn.Fixed(25).WithZeros(1)}
+	if thorough {
+		lengths = append(lengths, 2, 24, 63, 65, 70000)
+		shorts = append(shorts, []int{2}, []int{24}, []int{25}, []int{4096})
+		pols = append(pols, memconn.Fixed(2), memconn.Fixed(24), memconn.Fixed(64), memconn.Rel(-1), memconn.Rel(1), memconn.Rel(0).WithZeros(0, 1))
+	}
+	marks := []int{23, 24, 25, 26, 24 + 63, 24 + 64, 24 + 65}
+	r.Bounds["L"] = lengths
+	r.Bounds["write_splits"] = "whole, thirds"
+	r.Bounds["short_read_patterns(cyclic, 0=unlimited)"] = shorts
+	var pn []string
+	for _, p := range pols {
+		pn = append(pn, p.Name)
+	}
+	r.Bounds["read_policies"] = pn
+	r.Bounds["faults"] = "eof {with | after the last segment}; at every position: reset with the segment, reset after the segment (control), expired deadline with the segment"
+	r.Bounds["fault_positions(wire bytes delivered before the break, W = 24 + L in flight)"] = "1, 2, 3, W/2, W-2, W-1, W, 23, 24, 25, 26, 87, 88, 89"
+	r.Bounds["reads_after_first_error"] = 6
+	for _, L := range lengths {
+		payload := memconn.Pattern(0x95CF00+uint64(L), L)
+		for _, sp := range memconn.Splits(L, nil, 0) {
+			if sp.Name != "whole" && sp.Name != "thirds" {
+				continue
+			}
+			faults := memconn.Faults(24+L, marks)
+			for fi, f := range faults {
+				if !b.Mine(L, sp.Name, fi) {
+					continue
+				}
+				for _, short := range shorts {
+					for _, pol := range pols {
+						if b.Over() {
+							return
+						}
+						f := f
+						c := c02Case{Layer: "psk", Dir: "a2b", L: L, Split: sp.Name, Writes: c02ShortWrites(sp.Sizes), Policy: pol.Name, Short: short, EOFWithData: f.Kind == "eof" && f.WithData, Fault: &f}
+						res := memconn.RunReadFault(t, c02Setup(short, false), payload, sp.Sizes, pol, f, false, &b.Buf)
+						if cls := b.ReadFault("psk", res, f, L, c); cls != "" {
+							b.Distinct(c, L, sp.Name, fi, short, pol.Name)
 						}
 					}
 				}
